@@ -80,10 +80,18 @@ def hid_status(hid):
 
 def _handler_body(hid, req, resp, ex, params):
     _cur.calls.append((hid, ex, dict(params), (resp.text, resp.data, resp.media)))
+    if hid in ('hE', 'hS', 'hS0'):
+        # a handler may have started composing a response before it gives up by raising:
+        # what it raises is rendered "in turn", its own draft must not reach the client
+        resp.text = 'handler draft -- must not reach the client'
+        resp.data = b'handler draft data -- must not reach the client'
+        resp.set_header('X-Draft', '1')
     if hid == 'hE':
         raise falcon.HTTPError(418, title='from-hE', description='raised by a handler', headers={'X-From': 'hE'})
     if hid == 'hS':
         raise falcon.HTTPStatus(208, {'X-From': 'hS'}, 'status-from-hS')
+    if hid == 'hS0':
+        raise falcon.HTTPStatus(202, {'X-From': 'hS0'})
     resp.status = hid_status(hid)
     # media has the lowest precedence of text/data/media: anything that was not discarded shows
     resp.content_type = 'application/json'
@@ -337,6 +345,8 @@ def expected_for(hid, desc):
                 'headers': [('x-from', 'hE')]}
     if hid == 'hS':
         return {'code': 208, 'text': 'status-from-hS', 'headers': [('x-from', 'hS')]}
+    if hid == 'hS0':
+        return {'code': 202, 'text': '', 'headers': [('x-from', 'hS0')]}
     return {'code': hid_status(hid), 'json': {'by': hid}}
 
 
@@ -423,7 +433,8 @@ class SelState:
 
 
 class SelectHarness:
-    def __init__(self, dag, dag_name, stack, rep):
+    def __init__(self, dag, dag_name, stack, rep, interleave=False):
+        self.interleave = interleave
         self.dag = dag
         self.dag_name = dag_name
         self.stack = stack
@@ -476,6 +487,12 @@ class SelectHarness:
 
     def replay(self, s, op):
         self._apply(s, op)
+        if self.interleave:
+            # lookups interleaved with registrations on the SAME app object: every class is raised
+            # after every registration of the history (a stale per-type cache shows only this way)
+            for cls in self.raise_classes:
+                exc, _ = make_instance(cls, cls.__name__)
+                request(s.app, self.stack, exc)
 
     def step(self, s, op, hist):
         self._apply(s, op)
@@ -492,7 +509,7 @@ class SelectHarness:
             rep.trace()
             sig = {'part': 'select', 'stack': self.stack}
             rec = {'part': 'select', 'dag': self.dag, 'dag_name': self.dag_name, 'stack': self.stack,
-                   'hist': [list(o) for o in hist], 'raise': ci}
+                   'hist': [list(o) for o in hist], 'raise': ci, 'interleave': self.interleave}
             where = ('select stack=%s dag=%r history=%r raise %s (mro %s)'
                      % (self.stack, self.dag, self.describe(hist), cls.__name__,
                         '>'.join(c.__name__ for c in cls.__mro__[:-2])))
@@ -526,6 +543,9 @@ def run_select(item, rep):
     h = SelectHarness(dag, name, stack, rep)
     h.probe_all(h.fresh(), ())
     seq.bfs(h, rep, max_depth=depth, merge=True)
+    # the same search with lookups interleaved between the registrations (one live app per history)
+    h2 = SelectHarness(dag, name, stack, rep, interleave=True)
+    seq.bfs(h2, rep, max_depth=depth, merge=True)
     rep.c['select_configs'] += 1
     if len(dag) == 2 and len(rep.samples) < 2:
         rep.sample({'part': 'select', 'dag': dag, 'stack': stack, 'depth': depth})
@@ -545,6 +565,7 @@ SITE_REGS = (
     ((0, 'h1'), (1, 'h2')),
     ((0, 'hE'),),
     ((0, 'hS'),),
+    ((0, 'hS0'),),
     (('HTTPError', 'h1'),),
     (('Exception', 'h1'),),
     ((0, 'hE'), ('HTTPError', 'h1'), ('HTTPStatus', 'h2')),
@@ -970,7 +991,7 @@ def replay(rec):
     part = rec['part']
     if part == 'select':
         dag = _tup(rec['dag'])
-        h = SelectHarness(dag, rec.get('dag_name', ''), rec['stack'], rep)
+        h = SelectHarness(dag, rec.get('dag_name', ''), rec['stack'], rep, interleave=rec.get('interleave', False))
         s = h.fresh()
         hist = tuple(_tup(o) for o in rec['hist'])
         for o in hist:
